@@ -30,6 +30,8 @@ def main (args : List String) : IO UInt32 := do
   | "C20" :: rest => Driver.C20.main rest; return 0
   | "C03" :: rest => Driver.C03.main rest; return 0
   | "C01" :: rest => Driver.C01.main rest; return 0
+  | "C01cfg" :: rest => Driver.C01.mainCfg rest; return 0
+  | "C10sni" :: rest => Driver.C01.mainCfg rest; return 0
   | "C01cb" :: rest => Driver.C01.main rest; return 0
   | "C02" :: rest => Driver.C02.main rest; return 0
   | "C19" :: rest => Driver.C19.main rest; return 0
